@@ -154,7 +154,7 @@ def classify(m: Module, fi: Optional[FuncInfo], e: ast.AST, depth: int = 0, _see
 
 
 def run(res: Results, idx: Index, tier: str) -> None:
-    res.rule("R-C09a", "the restored x64 value was read from jax.config before the first update; updates are covered by a restoring finally", floor=4)
+    res.rule("R-C09a", "the x64 flag is switched through JAX's scoped context manager; a manual update is covered by a restoring finally, restores a value read before the first update, and does not mix context-local reads with process-wide writes", floor=2)
     res.rule("R-C09b", "no default-float64 numpy constant reaches ir.tensor / const_value= / tensor_attr / bind_const_for_var", floor=150)
     res.assumptions += ["double-precision accuracy and hidden float32 casts inside individual lowerings are NOT decided (882 textual np.float32 uses; no sound rule in reach)",
                         "add_initializer_from_scalar / add_initializer_from_array downcast floats in single-precision mode and are therefore not sinks"]
@@ -200,9 +200,32 @@ def run(res: Results, idx: Index, tier: str) -> None:
                 else:
                     res.violation("R-C09a", site, key, "jax_enable_x64 is changed and no finally restores it", fi.qualname)
     res.analysed["x64_update_sites"] = n_upd
+    # the scoped idiom and the mismatch it avoids
+    from .c13 import _is_x64_scope_call
+    n_scope = 0
+    for m in idx.product_modules():
+        if ".sandbox" in m.name:
+            continue
+        for fi in m.funcs.values():
+            for w in walk_no_nested(fi.node):
+                if isinstance(w, ast.With) and any(isinstance(it.context_expr, ast.Call) and _is_x64_scope_call(idx, m, fi, it.context_expr) for it in w.items):
+                    n_scope += 1
+                    res.ok("R-C09a", f"{m.rel}:{w.lineno}", f"{m.rel}::{fi.qualname}::x64-scope", "the requested precision is set through JAX's scoped x64 context manager (context-local, restored on exit)", fi.qualname)
+            for u in walk_no_nested(fi.node):
+                if isinstance(u, ast.Call) and (call_name(u) or "").endswith("config.update") and u.args and isinstance(u.args[0], ast.Constant) and u.args[0].value == "jax_enable_x64":
+                    reads_ctx = any((isinstance(x, ast.Attribute) and x.attr == "jax_enable_x64") or (isinstance(x, ast.Call) and (call_name(x) or "").endswith("config.read")) for x in walk_no_nested(fi.node))
+                    if reads_ctx:
+                        res.violation("R-C09a", f"{m.rel}:{u.lineno}", f"{m.rel}::{fi.qualname}::global-write-context-read", "the flag is read through jax.config.jax_enable_x64 / config.read (context-local inside a user's `with jax.enable_x64(...)`) but written with jax.config.update (process-wide): the 'restore' then writes the context's value into the global flag, and tracing follows the context instead of enable_double_precision", fi.qualname)
+    res.analysed["x64_scopes_with"] = n_scope
 
     res.rule("R-C09c", "no x64-sensitive JAX call runs outside the scoped x64 flag in functions that scope it", floor=20)
     rule_c(res, idx)
+
+    from .c03 import inherited_settings
+    res.rule("R-C09d", "nested Loop / If / function scopes inherit enable_double_precision from an attribute that exists", floor=1)
+    for site, key, status, detail, func, setting in inherited_settings(idx):
+        if "double" in setting or "float32" in setting:
+            res.add("R-C09d", status, site, key, detail, func)
 
     # ---------------- R-C09b
     n_sinks = 0
